@@ -192,9 +192,8 @@ impl<W: 'static, R: 'static, T: 'static> XGenerator<W, R, T> {
             }),
             Self::Chain(arr) => either_f({
                 arr.iter().flat_map(move |gen| {
-                    to_native!(gen, Self)
-                        ._iter(ns, rt.clone())
-                        .collect::<Vec<_>>()
+                    let part: BIter<_, _, _> = Box::new(to_native!(gen, Self)._iter(ns, rt.clone()));
+                    part
                 })
             }),
             Self::Slice(gen, start, end) => either_g({
